@@ -634,10 +634,10 @@ func (session *HermesSession) Run(workingDir string, args []string, logID string
 				// ************ BERECHNUNG DER STICKSTOFFDYNAMIK ************
 				verifProbe(vc, "pre_nitro", ZEIT, SUBD, WDT, STEPS)
 				finished, err := Nitro(WDT, SUBD, ZEIT, &g, &nitroSharedVars, &nitroSharedBBBVars, &herPath, &cropOut)
-				verifProbe(vc, "post_nitro", ZEIT, SUBD, WDT, STEPS)
 				if err != nil {
 					return err
 				}
+				verifProbe(vc, "post_nitro", ZEIT, SUBD, WDT, STEPS)
 				if finished {
 					cropOutputConfig.WriteLine(CNAMfile)
 				}
